@@ -52,6 +52,8 @@ class Profile(Lower):
         t0 = norm_type(t)
         if 'reverse_iterator' in t0 and 'unordered_map' in t0:
             return 'bl_rit'
+        if '__normal_iterator' in t0 and 'unordered_map' in t0 and 'VarEntry' in t0 and 'vector' in t0:
+            return 'bl_rit'        # a FORWARD iterator over the scope stack, same representation (k means "element k-1"): begin() is 1, end() is size+1, ++ adds one
         if ('_Node_iterator' in t0 or t0.endswith('::iterator')) and 'VarEntry' in t0 and 'reverse' not in t0:
             return 'bl_mit'
         return super().ctype(t)
@@ -73,7 +75,7 @@ class Profile(Lower):
         if op in ('operator==', 'operator!=') and t0 in ('bl_rit', 'bl_mit'):
             return '(%s %s %s)' % (self.expr(args[0]), op[len('operator'):], self.expr(args[1]))
         if op == 'operator++' and t0 == 'bl_rit':
-            return '(%s = %s - 1)' % (self.expr(args[0]), self.expr(args[0]))
+            return '(%s = %s %s 1)' % (self.expr(args[0]), self.expr(args[0]), '-' if 'reverse_iterator' in norm_type(qt(args[0])) else '+')
         if op == 'operator->' and t0 == 'bl_mit':
             return 'BL_ENTRY(%s, %s)' % (self.cur_scope(), self.expr(args[0]))
         if op == 'operator[]' and t0 == 'bl_args':
@@ -111,6 +113,8 @@ class Profile(Lower):
         so = strip(obj)
         if name in ('rbegin', 'rend') and so.get('kind') == 'MemberExpr' and so.get('name') == 'm_env':
             return 'g_env_size' if name == 'rbegin' else '((bl_rit)0)'
+        if name in ('begin', 'end') and so.get('kind') == 'MemberExpr' and so.get('name') == 'm_env':
+            return '((bl_rit)1)' if name == 'begin' else '(g_env_size + 1)'
         if name in ('find', 'end') and so.get('kind') == 'CXXOperatorCallExpr' and callee_name(kids(so)[0]) == 'operator->' and self.ct(kids(so)[1]) == 'bl_rit':
             return 'scope_stub_find(%s, %s)' % (self.cur_scope(), self.expr(args[0])) if name == 'find' else 'BL_MAP_END'
         if so.get('kind') == 'CXXThisExpr' and name == 'assign':
